@@ -948,7 +948,7 @@ def dispatch(ex, func, argv, frame):
             raise Unsupported('from_utf8 on something other than a prefix of the input')
         if ex.branch(c.valid_utf8_prefix(s.end)):
             return Ok(Str(s.buf, s.start, s.end, True))
-        return Err(Opaque('Utf8Error'))
+        return Err(Opaque('Utf8Error', s=s))
     if g == 'std::char::methods::<impl char>::len_utf8':
         ch = a[0]
         if isinstance(ch, int):
